@@ -191,6 +191,15 @@ func runCheck(prop, tier string, rebaseline bool) int {
 		for _, name := range specs.Order {
 			if fn := ld.funcs[name]; fn != nil {
 				if want, ok := pinnedSigs[name]; ok && want != sigKey(fn) {
+					if sameButReceiver(fn, want, sigKey(fn)) {
+						recvNowPointer[name] = true
+						run.Notes = append(run.Notes, fmt.Sprintf("contract for %s: the receiver became a pointer; the contract is kept, the receiver is assumed non-nil (it was a value at every call)", name))
+						continue
+					}
+					if paramsAdded(want, sigKey(fn)) {
+						run.Notes = append(run.Notes, fmt.Sprintf("contract for %s: parameters were added (%s, was %s); the contract is kept for the parameters it names", name, sigKey(fn), want))
+						continue
+					}
 					specs.Void[name] = true
 					if run.Gone == nil {
 						run.Gone = map[string]bool{}
@@ -530,7 +539,7 @@ func boundedFallback(run *CheckRun, ld *Loaded, specs *SpecDB, prop, tier string
 					bad = append(bad, a.Name+" ["+a.Failed[0].Res.Status+"]")
 					// a callee whose precondition cannot be established here: the precondition is part of the modular
 					// proof, not of the property. Second attempt: its body is executed in place instead.
-					if m := callPreRe.FindStringSubmatch(a.Name); m != nil && !inlined[m[1]] && ld.funcs[m[1]] != nil && len(ld.funcs[m[1]].Blocks) > 0 {
+					if m := callPreRe.FindStringSubmatch(a.Name); m != nil && !inlined[m[1]] && ld.funcs[m[1]] != nil && len(ld.funcs[m[1]].Blocks) > 0 && !taggedRequires(specs, m[1], a.Name) {
 						inlined[m[1]] = true
 						more = true
 					}
@@ -602,6 +611,30 @@ var pinnedParams map[string][]string
 // function any more (void: the function is executed in place wherever it is called).
 var pinnedSigs map[string]string
 
+// sameButReceiver: the two signature keys differ only in whether the receiver (first parameter of a method) is
+// a value or a pointer to it. The contract then still speaks about the same values; a receiver that used to be
+// a value cannot have been nil at any call (the call copied it), so the pointer is assumed non-nil.
+func sameButReceiver(fn *ssa.Function, pinned, cur string) bool {
+	if fn.Signature.Recv() == nil || pinned == cur {
+		return false
+	}
+	strip := func(k string) string { return strings.TrimPrefix(k, "*") }
+	return strip(pinned) == strip(cur) && strings.HasPrefix(cur, "*") && !strings.HasPrefix(pinned, "*")
+}
+
+var recvNowPointer = map[string]bool{}
+
+// paramsAdded: the current signature has the pinned parameters (same types, same order) followed by new ones,
+// and the same results. The contract still speaks about the parameters it names (bound by position).
+func paramsAdded(pinned, cur string) bool {
+	pi, ci := strings.LastIndex(pinned, "->"), strings.LastIndex(cur, "->")
+	if pi < 0 || ci < 0 || pinned[pi:] != cur[ci:] {
+		return false
+	}
+	pp, cp := pinned[:pi], cur[:ci]
+	return len(cp) > len(pp) && (pp == "" || strings.HasPrefix(cp, pp+","))
+}
+
 func sigKey(fn *ssa.Function) string {
 	var ps []string
 	for _, p := range fn.Params {
@@ -645,13 +678,37 @@ func bindParams(fn *ssa.Function, get func(i int, p *ssa.Parameter) (SV, bool), 
 			vars[p.Name()] = v
 		}
 	}
-	if pn, ok := pinnedParams[fnName(fn)]; ok && len(pn) == len(fn.Params) {
+	if pn, ok := pinnedParams[fnName(fn)]; ok && len(pn) <= len(fn.Params) {
 		for i, p := range fn.Params {
+			if i >= len(pn) {
+				break
+			}
 			if v, ok := get(i, p); ok && pn[i] != "" && pn[i] != "_" {
 				vars[pn[i]] = v
 			}
 		}
 	}
+}
+
+// taggedRequires: the call-precondition obligation belongs to a clause of the callee that is tagged with
+// properties of its own (requires{C11,C14} ...): such a clause states a condition the property needs at that
+// call, it is not a device of the modular proof, and the callee is not executed in place to get around it.
+func taggedRequires(specs *SpecDB, callee, obName string) bool {
+	sp := specs.Lookup(callee)
+	if sp == nil {
+		return false
+	}
+	label := obName[strings.LastIndex(obName, ":")+1:]
+	for i, c := range sp.Requires {
+		l := c.Label
+		if l == "" {
+			l = fmt.Sprintf("#%d", i+1)
+		}
+		if l == label && c.Tagged {
+			return true
+		}
+	}
+	return false
 }
 
 func firstN(xs []string, n int) []string {
@@ -712,7 +769,7 @@ func mustFailCorpus(run *CheckRun, repo string) {
 // the evidence (an alarm here is a false alarm of the machinery, listed as an engine note, and does not
 // change the verdict on the tree under test).
 func mustPassCorpus(run *CheckRun, repo string) {
-	dirs, _ := filepath.Glob(filepath.Join(verifDir, "benign", "B*"))
+	dirs, _ := filepath.Glob(filepath.Join(verifDir, "benign", "*"))
 	sort.Strings(dirs)
 	self, _ := os.Executable()
 	for _, d := range dirs {
